@@ -252,10 +252,40 @@ SPAWN = r"^tokio::spawn$|^tokio::task::spawn$|^tokio::task::spawn_local$|^tokio:
 
 
 def spawned_coroutine(fn, spawn_term):
-    """(coroutine Fn, aggregate stmt) handed to a spawn call, if the argument is an async block."""
-    g, node = closure_of_operand(fn, spawn_term["args"][0])
+    """(coroutine Fn, aggregate stmt) handed to a spawn call.  The argument is either an async block
+    built in `fn`, or the future returned by a call to a crate-local `async fn`; in the second case
+    a synthetic aggregate is returned whose operands are the caller's arguments in the order in
+    which the async fn's coroutine captures its parameters."""
+    op = spawn_term["args"][0]
+    g, node = closure_of_operand(fn, op)
     if g is not None and node["rv"].get("agg") == "coroutine":
         return g, node
+    l = operand_local(op)
+    seen = 0
+    while l is not None and seen < 4:
+        seen += 1
+        ds = fn.defs().get(l, [])
+        if len(ds) != 1:
+            return None, None
+        bb, kind, d = ds[0]
+        if kind == "assign" and d["rv"]["rv"] == "use":
+            l = operand_local(d["rv"]["op"])
+            continue
+        if kind != "call":
+            return None, None
+        callee = fn.facts.F.get(d.get("resolved") or "") or fn.facts.F.get(d.get("callee") or "")
+        if callee is None:
+            return None, None
+        aggs = [st for _, _, st in callee.stmts() if st["rv"]["rv"] == "agg" and st["rv"].get("agg") == "coroutine" and st["pl"]["l"] == 0]
+        if len(aggs) != 1 or aggs[0]["rv"]["def"] not in fn.facts.F or sum(1 for _ in callee.calls()) > 0:
+            return None, None
+        ops = []
+        for o in aggs[0]["rv"]["ops"]:
+            pl = operand_local(o)
+            if pl is None or not (1 <= pl <= callee.argc) or pl > len(d["args"]):
+                return None, None
+            ops.append(d["args"][pl - 1])
+        return fn.facts.F[aggs[0]["rv"]["def"]], {"s": "assign", "pl": {"l": l, "p": []}, "rv": {"rv": "agg", "agg": "coroutine", "def": aggs[0]["rv"]["def"], "ops": ops}}
     return None, None
 
 
@@ -396,6 +426,13 @@ def panic_sites(fn):
             m = m if isinstance(m, str) else json.dumps(m)
             out.append(("assert", m.split("(")[0].strip('"'), bool(t.get("exp")), blk["bb"]))
     return out
+
+
+def norm_fid(fid):
+    """Def paths of serde's traits are printed through whichever derive-generated `const _` block
+    re-exports serde first (`api_description::_::_serde::Deserializer`, `dtrace::_::_serde::..` with
+    usdt-probes): not stable, so census keys spell them `serde::`."""
+    return re.sub(r"\b\w+::_::_serde::", "serde::", fid)
 
 
 def load_panic_table(path):
